@@ -50,6 +50,20 @@ class _LocalManager:
     def list(self, *a):
         return list(*a)
 
+    def dict(self, *a, **k):
+        return dict(*a, **k)
+
+    def Lock(self):
+        import threading
+        return threading.Lock()
+
+    def RLock(self):
+        import threading
+        return threading.RLock()
+
+    def shutdown(self):
+        pass
+
 
 class Observation:
     __slots__ = ("outcomes", "okeys", "final", "final_key", "deadlock", "hang", "locked", "mutex_owned",
@@ -124,6 +138,9 @@ class ScenarioRunner:
             elif op["op"] == "smeta":
                 w.data_path(op["doc"], w.docs)
         self._paths = dict(w._paths)
+        self._followup_doc = os.path.join(self.datadir, "followup_document")
+        with open(self._followup_doc, "wb") as f:
+            f.write(b"<followup/>")
         self.start_abs = absstate.abstract(self.template, self.layout, self.scn.pids,
                                            [(p, f) for p in self.scn.pids for f in self.scn.fmts])
 
@@ -209,7 +226,7 @@ class ScenarioRunner:
         conds = S.adopt_store(store, owner)
         self._n_constructed = len(owner.created)
         self._generic_lists = bool(conds)
-        if not conds:
+        if not conds and not owner.created:
             try:
                 conds = S.instrument_store(store, lambda: holder.get("s"), scn.mode)
             except AttributeError as err:
@@ -307,9 +324,14 @@ class ScenarioRunner:
         """Every identifier involved must be operable again without blocking (C08)."""
         problems = []
         pids = sorted({op["pid"] for op in self.scn.calls if op.get("pid")})
+        doc = self._followup_doc
         for pid in pids:
-            for name, fn in (("store_metadata", lambda: store.store_metadata(pid, next(iter(self._paths.values())), "followup")),
-                             ("delete_object", lambda: store.delete_object(pid))):
+            calls = [("store_metadata", lambda: store.store_metadata(pid, doc, "followup"))]
+            # the very documents the scenario touched must be free again as well
+            for fmt in sorted({op.get("fmt") or "" for op in self.scn.calls if op["op"] in ("smeta", "dmeta", "rmeta") and op.get("pid") == pid}):
+                calls.append((f"store_metadata({fmt or 'default'})", (lambda f=fmt: store.store_metadata(pid, doc, f) if f else store.store_metadata(pid, doc))))
+            calls.append(("delete_object", lambda: store.delete_object(pid)))
+            for name, fn in calls:
                 try:
                     fn()
                 except S.Deadlock as d:
